@@ -35,6 +35,21 @@ func CELProbes() []corev1alpha1.ObjectSetProbe {
 	}}
 }
 
+// FEProbes: Widgets need condition Ready=True, Gadgets need .status.x == .status.mirror (two
+// fields that are both absent until the workload controller has written a status).
+func FEProbes() []corev1alpha1.ObjectSetProbe {
+	return []corev1alpha1.ObjectSetProbe{
+		{
+			Selector: corev1alpha1.ProbeSelector{Kind: &corev1alpha1.PackageProbeKindSpec{Group: TestGroup, Kind: "Widget"}},
+			Probes:   []corev1alpha1.Probe{{Condition: &corev1alpha1.ProbeConditionSpec{Type: "Ready", Status: "True"}}},
+		},
+		{
+			Selector: corev1alpha1.ProbeSelector{Kind: &corev1alpha1.PackageProbeKindSpec{Group: TestGroup, Kind: "Gadget"}},
+			Probes:   []corev1alpha1.Probe{{FieldsEqual: &corev1alpha1.ProbeFieldsEqualSpec{FieldA: ".status.x", FieldB: ".status.mirror"}}},
+		},
+	}
+}
+
 // StdProbes: Widgets need condition Ready=True, Gadgets need .spec.x == .status.x.
 func StdProbes() []corev1alpha1.ObjectSetProbe {
 	return []corev1alpha1.ObjectSetProbe{
